@@ -56,9 +56,10 @@ func c09Physical(chk *fw.Check, c *c08Cast, tier string) (evals, nontrivial int)
 	listed := c.probes[0]
 	base := FreshDir("c09img")
 	defer os.RemoveAll(base)
+	strict := false
 	step := func(dir string, serve bool) (v Verdict, provErr string) {
 		seqWorld(func() {
-			w := NewCW(CWOpt{Disk: true, SigMode: config.SignatureValidationModeVerify, Dir: dir})
+			w := NewCW(CWOpt{Disk: true, SigMode: config.SignatureValidationModeVerify, Dir: dir, Strict: strict})
 			if serve {
 				w.Net.Serve(urlA, "v1", c.vers[1])
 			} else {
@@ -94,6 +95,31 @@ func c09Physical(chk *fw.Check, c *c08Cast, tier string) (evals, nontrivial int)
 	if len(tables) == 0 {
 		chk.Violation("C09|harness|physical-setup", "setup: no table file in the store directory after two restarts", nil)
 		return
+	}
+	// a table file which has disappeared altogether: the database cannot even be opened, so for the validator the CRL of
+	// the distribution point is one which could not be loaded - crl_cdp_strict decides (denied when on; when off the
+	// documented leniency applies and the outcome is only recorded)
+	for _, t := range tables {
+		rel, _ := filepath.Rel(base, t)
+		dir := FreshDir("c09del")
+		if out, err := exec.Command("cp", "-a", base+"/.", dir).CombinedOutput(); err != nil {
+			chk.Violation("C09|harness|physical-copy", string(out), nil)
+			os.RemoveAll(dir)
+			return
+		}
+		os.Remove(filepath.Join(dir, rel))
+		strict = true
+		v, provErr := step(dir, false)
+		strict = false
+		os.RemoveAll(dir)
+		evals++
+		if provErr != "" || v.Err != "" {
+			nontrivial++
+		}
+		c09PhysOutcomes["table file removed: "+map[bool]string{true: "noticed", false: v.String()}[provErr != "" || v.Err != ""]]++
+		if provErr == "" && v.Panic == "" && v.Err == "" && !v.Revoked {
+			chk.Violation("C09|missing-table-file-answered-not-revoked", fmt.Sprintf("table file %s of the persisted store removed, crl_cdp_strict on: the restarted validator accepts the listed certificate", filepath.Base(t)), nil)
+		}
 	}
 	masks := []byte{0xff}
 	if tier == "thorough" {
